@@ -27,8 +27,9 @@ static const tp_t ts_tp[] = {
     {'Z',1},{'Z',2},{'Z',3},{'Z',4},{'Z',5},{'Z',6},
     {'Y',1},{'Y',2},{'Y',3},{'Y',4},{'Y',5},{'Y',6},
     {'H',2},{'G',2},
+    {'S',7},{'S',8},{'Z',7},{'Y',8},	/* Touchstone 2 only */
 };
-#define N_TS_TP 20
+#define N_TS_TP 24
 static const tp_t npd_tp[] = {
     {'S',1},{'S',2},{'S',3},{'S',4},
     {'Z',1},{'Z',2},{'Z',3},{'Z',4},
@@ -37,10 +38,11 @@ static const tp_t npd_tp[] = {
 };
 #define N_NPD_TP 14
 
-static const double real_z0[] = { 50.0, 75.0, 25.5, 100.0, 60.0, 33.0 };
+static const double real_z0[] = { 50.0, 75.0, 25.5, 100.0, 60.0, 33.0, 90.0,
+    12.5 };
 static const double complex cplx_z0[] = {
     50.0 + 5.0 * I, 75.0 - 10.0 * I, 30.0 + 40.0 * I, 100.0 - 1.0 * I,
-    60.0 + 0.5 * I, 45.0 - 45.0 * I
+    60.0 + 0.5 * I, 45.0 - 45.0 * I, 20.0 + 1.0 * I, 150.0 - 30.0 * I
 };
 static const double freqs[3][3] = {
     { 1.5e9, 0, 0 },
